@@ -373,6 +373,7 @@ func Finish(c *Ctx, res *Result, runErr error) int {
 	}
 	sort.SliceStable(res.Violations, func(i, j int) bool { return res.Violations[i].Key < res.Violations[j].Key })
 	seenKnown := map[string]bool{}
+	perKey := map[string]int{}
 	fresh := 0
 	exit := 0
 	repDir := filepath.Join(VerifDir(), "replays")
@@ -386,8 +387,9 @@ func Finish(c *Ctx, res *Result, runErr error) int {
 		}
 		fresh++
 		exit = 1
-		if fresh > 20 {
-			continue
+		perKey[v.Key]++
+		if perKey[v.Key] > 2 || len(perKey) > 12 {
+			continue // same class already reported twice
 		}
 		os.MkdirAll(repDir, 0o755)
 		path := filepath.Join(repDir, fmt.Sprintf("%s-%s.json", c.Prop, hashOf(v.Replay)))
@@ -395,7 +397,11 @@ func Finish(c *Ctx, res *Result, runErr error) int {
 		b, _ := json.MarshalIndent(payload, "", " ")
 		os.WriteFile(path, b, 0o644)
 		fmt.Printf("VIOLATION property=%s replay=%s\n", c.Prop, path)
-		fmt.Printf("  key=%s : %s\n", v.Key, v.What)
+		what := v.What
+		if len(what) > 600 {
+			what = what[:600] + "..."
+		}
+		fmt.Printf("  key=%s : %s\n", v.Key, what)
 	}
 	for i, d := range res.Drift {
 		if i < 10 {
